@@ -89,6 +89,7 @@ def main():
     # ---------------------------------------------------------------- 1. deductive part
     timeout_ms = '10000' if tier == 'quick' else '30000'
     os.environ['PYVC_Z3_TIMEOUT_MS'] = timeout_ms
+    os.environ['PYVC_OB_CAP_S'] = '100' if tier == 'quick' else '300'
     if tier != 'quick':
         os.environ['PYVC_SECOND_BACKEND'] = '1'
     results = run_many(sorted(mine), timeout=900 if tier == 'quick' else 3600) if mine else []
@@ -102,9 +103,14 @@ def main():
         if (lost or r.get('status') == 'TIMEOUT') and led and not a.update_ledger:
             retry.append(r['fid'])
     if retry:
+        # (the first pass already tried three solver seeds per obligation: the retry is about the budget only)
         os.environ['PYVC_Z3_TIMEOUT_MS'] = str(int(timeout_ms) * 4)
-        again = {r['fid']: r for r in run_many(retry, jobs=2, timeout=3600)}
+        os.environ['PYVC_NO_PORTFOLIO'] = '1'
+        os.environ['PYVC_OB_CAP_S'] = '200' if tier == 'quick' else '600'
+        again = {r['fid']: r for r in run_many(retry, jobs=2, timeout=1500)}
         os.environ['PYVC_Z3_TIMEOUT_MS'] = timeout_ms
+        del os.environ['PYVC_NO_PORTFOLIO']
+        os.environ['PYVC_OB_CAP_S'] = '100' if tier == 'quick' else '300'
         results = [again.get(r['fid'], r) if again.get(r['fid'], {}).get('status') == 'OK' else r for r in results]
         lines.append(f'RETRIED with 4x budget: {", ".join(x.split(":")[-1] for x in retry)}')
     fn_rows = []
